@@ -259,6 +259,9 @@ def run(pid, tier, seed, ctx, modes_for, known_carve=None, witnesses=2, extra_gr
                                                       mode=mode, model=model, message=f'{bmcrun.label(r["spec"])}: {text}',
                                                       detail='schedule: ' + ' | '.join(
                                                           f"{s['actor']}:{s.get('line', s.get('task'))}:{s['label']}" for s in model['trace'])[:1400]))
+                elif status == 'not-observed' and g['system'] == 'lpm' and g['backend'] not in ('t', 'thread'):
+                    # process pools cannot be scheduled: an uncontrolled run that does not show the behaviour proves nothing either way
+                    out['inconclusive'].append(f'{bmcrun.label(r["spec"])}: sat in the model; the uncontrolled run on the real process pool did not show it ({text})')
                 elif status == 'not-observed':
                     out['harness_errors'].append(f'ENGINE-ARTEFACT: {bmcrun.label(r["spec"])} is sat but the real code does not show it: {text}')
                 else:
